@@ -117,7 +117,7 @@ def gen_seq(ctx):
 
     # 1. exhaustive short histories over a case-variant alphabet (fresh table per history)
     for kind in "tc":
-        alpha = ["r:a:1", "r:A:1", "r:a:2", "r:b:1", "r:B:2", "n:a", "n:A", "n:b", "s:0", "s:1", "c"]
+        alpha = ["r:a:1", "r:A:1", "r:a:2", "r:b:1", "r:B:2", "n:a", "n:A", "n:b", "s:0", "s:1", "c", "L", "U"]
         maxlen = 4 if thorough else 3
         for n in range(0, maxlen + 1):
             for ops in itertools.product(alpha, repeat=n):
@@ -140,7 +140,7 @@ def gen_seq(ctx):
             lines.append(b.line())
     ctx.extra["exhaustive_small_scope"] = (
         "test instantiations (exact / case-insensitive ObjectEqual): all histories of length <= 3 (thorough: <= 4) over "
-        "{register a/A/b with payloads 1,2; lookup a,A,b; slot 0,1; count} on a fresh table, each followed by a full dump "
+        "{register a/A/b with payloads 1,2; lookup a,A,b; slot 0,1; count; open/close LockExclusively scope} on a fresh table, each followed by a full dump "
         "(count, every slot, every name); plugin and resource-provider APIs: all such histories of length <= 2 and %s of "
         "length 3, as prefixed segments of long histories" % ("all" if thorough else "a seeded sample of 260"))
     # 2. block boundaries: prefix of distinct registrations, then every suffix of length <= 2
@@ -192,6 +192,8 @@ def gen_seq(ctx):
                 ops.append("n:" + nm)
             elif r < 0.93:
                 ops.append("s:%d" % rng.randint(base - 1, base + len(pool)))
+            elif r < 0.96 and kind in "tc":
+                ops.append(rng.choice("LLU"))
             else:
                 ops.append("c")
         add(kind, ops, "random:" + kind)
@@ -239,7 +241,10 @@ def oracle_seq(line, out):
     if out.startswith("crash"):
         return ("crash", "implementation crashed: " + out)
     if out == "bad-op":
-        if any(len(o.split(":")) != {"r": 3, "n": 2, "s": 2, "c": 1}.get(o.split(":")[0], 0) for o in ops):
+        arity = {"r": 3, "n": 2, "s": 2, "c": 1}
+        if K["copyfail"]:
+            arity.update({"L": 1, "U": 1})
+        if any(len(o.split(":")) != arity.get(o.split(":")[0], 0) for o in ops):
             return None
         return ("wellformed-rejected", "well-formed history rejected")
     if len(res) != len(ops):
@@ -286,6 +291,9 @@ def oracle_seq(line, out):
                 byslot[want] = (name, p)
                 if name == "":
                     empty_reg = True
+        elif f[0] in ("L", "U"):
+            if r != "u":
+                return ("output-shape", "lock scope op printed " + r)
         elif f[0] == "c":
             if not r.isdigit():
                 return ("output-shape", "count printed " + r)
